@@ -21,7 +21,8 @@ class SleepClient(RunnerClient):
     """counts handler / before_sleep / sleeper calls per granted retry"""
 
     name = "sleep-protocol"
-    fault = {"operation": ("OtherException",)}
+    # hooks may fail: a failing before_sleep / on_metric / on_log must not cost the retry its sleep
+    fault = {"operation": ("OtherException",), "before_sleep": ("OtherException",), "on_metric": ("OtherException",), "on_log": ("OtherException",)}
 
     def initial(self) -> Any:
         # (handler calls, before_sleep calls, sleeper calls, decision, granted, flags)
